@@ -1,6 +1,9 @@
 import Proofs.C15Paging
 import Proofs.C15Hist
 import Proofs.C15Retry
+import Proofs.C15Walk
+import Proofs.C15First
+import Proofs.C15Prep
 /-!
 # C15 — paged iteration yields every row exactly once, in order, and then stops
 
@@ -464,6 +467,342 @@ example :
     let o := PagingRetry.runR (some (PagingRetry.scripted none)) 2 q false script false 0 1 q
     o.rows = [1, 2, 3] ∧ o.err = some (.srv 0x1100) ∧ o.atts = [1, 2, 1] ∧ PagingRetry.full script = [1, 2, 3, 4] ∧
     o.reqs.filterMap PagingRetry.reqState = [none, some [1], some [1], some [1], some [2]] := by
+  decide
+
+
+/-! ## Walking one iterator (`Model/PagingWalk.lean`): single Scan / MapScan / Scanner.Next calls, observers,
+    abandonment, the asynchronous prefetch launched by Iter.Scan's trigger and running at any moment
+
+Full property for an application that does NOT drain: at every moment of every walk the rows handed over so
+far are an initial piece of the result, in order, each once; the requests sent so far — including the one a
+prefetch may have sent ahead — are an initial piece of the requests of the full iteration (nothing is ever
+requested that the full iteration would not request, in particular nothing after the last page); and
+continuing to the end from there yields exactly the rest. Holds on the unchanged code (no `_partial`). -/
+
+open Paging.Hist Paging.Walk in
+/-- **Wherever the application stands, delivered ++ still to come = the result.** For every script, every
+    query, every prefetch-position function and EVERY walk (strides of single calls through Iter.Scan/MapScan or
+    Scanner.Next stopping at a false, observers, probes of the prefetch, the launched prefetch getting to run
+    at any moment): the rows delivered so far followed by what a drain would still deliver, the QUERY/EXECUTE
+    requests sent so far followed by those a drain would still send, and the error a drain would end with are
+    those of the query run alone in one go (`run`, which is the specification by `C15_session_rows` /
+    `C15_requests_partial`). -/
+theorem C15_walk_total (ppOf : Int → Nat → Nat) (script : List Reply) (q : Qry) (steps : List Walk.Step) :
+    tot ppOf (Walk.exec ppOf (Walk.start ppOf script q) steps).it = obs3 (run (ppOf q.pf) script false q) := by
+  have h1 := exec_winv ppOf steps _ (start_winv ppOf script q)
+  have h2 := exec_target ppOf steps (Walk.start ppOf script q) (start_winv ppOf script q).1
+  rw [h1.2, h2.1]
+  exact start_target ppOf script q
+
+open Paging.Hist Paging.Walk in
+/-- **An abandoned iteration has received a prefix, and has asked for nothing the full iteration would not
+    ask for.** With automatic paging, at every moment of every walk: the rows handed over are an initial
+    segment of the specification's rows (in order, each once, nothing skipped), and the QUERY/EXECUTE requests
+    the node has received or will receive from a prefetch already running are an initial segment of the
+    requests of the complete iteration — so no page after the last one, and no page twice, is ever requested
+    by an early stop, a Close, or the prefetch. -/
+theorem C15_walk_abandon_prefix (ppOf : Int → Nat → Nat) (script : List Reply) (q : Qry) (steps : List Walk.Step)
+    (hq : q.disableAutoPage = false) :
+    (Walk.exec ppOf (Walk.start ppOf script q) steps).it.out <+: Spec.rows script ∧
+    (Walk.exec ppOf (Walk.start ppOf script q) steps).it.reqs.filter Req.isExec <+:
+      (run (ppOf q.pf) script false q).reqs.filter Req.isExec := by
+  have h := C15_walk_total ppOf script q steps
+  have hs := (C15_session_rows (ppOf q.pf) script false q hq).1
+  simp only [tot, obs3, Prod.mk.injEq] at h
+  refine ⟨⟨(fut ppOf (Walk.exec ppOf (Walk.start ppOf script q) steps).it).rows, by rw [h.1, hs]⟩,
+    ⟨(fut ppOf (Walk.exec ppOf (Walk.start ppOf script q) steps).it).reqs.filter Req.isExec, ?_⟩⟩
+  rw [← h.2.1, List.filter_append]
+
+open Paging.Hist Paging.Walk in
+/-- **The prefetch never runs ahead of its threshold, and never more than one page.** At every moment of every
+    walk: if the page after the current one has been fetched before the consumer asked for it (`pre`), then
+    Iter.Scan had launched the prefetch, and it did so only after the consumer had taken MORE than `next.pos`
+    rows of the current page (`next.pos` = the clamped `int((1 - prefetch) * numRows)` ≥ 1, `C15_prefetch_pos`):
+    in particular never before a row of the current page was taken, and never through a Scanner. (The model
+    state has room for one page ahead only; that the real code sends no second one is the tie's matter: op
+    `walk` compares the node's request log at the moment of abandonment.) -/
+theorem C15_walk_prefetch_threshold (ppOf : Int → Nat → Nat) (script : List Reply) (q : Qry) (steps : List Walk.Step) :
+    let w := Walk.exec ppOf (Walk.start ppOf script q) steps
+    w.it.pre.isSome → (w.async = .launched ∨ w.async = .awaited) ∧ ∃ n, w.it.cur.next = some n ∧ n.pos < w.it.cur.pos := by
+  intro w h
+  have hi := exec_tinv ppOf steps _ (start_tinv ppOf script q)
+  exact ⟨hi.1 h, hi.2 (hi.1 h)⟩
+
+open Paging.Hist Paging.Walk in
+/-- **Iter.Scan launches the prefetch as soon as the threshold is passed** (the converse of
+    `C15_walk_prefetch_threshold`; Query.Prefetch's documentation: "the next page will be requested
+    automatically"). For every walk through Iter.Scan / MapScan with observers and any scheduling (no Scanner
+    strides — a Scanner never prefetches —, no probe disarming it): whenever the consumer has taken more than
+    `next.pos` rows of a page that has a next page, the asynchronous prefetch of that next page HAS been
+    launched. Together with the threshold theorem: launched if and only if past the threshold. -/
+theorem C15_walk_prefetch_launched (ppOf : Int → Nat → Nat) (script : List Reply) (q : Qry) (steps : List Walk.Step)
+    (hs : ∀ s ∈ steps, scanOnly s) :
+    let w := Walk.exec ppOf (Walk.start ppOf script q) steps
+    ∀ n, w.it.cur.err = none → w.it.cur.next = some n → n.pos < w.it.cur.pos → w.async = .launched := by
+  intro w
+  exact (exec_cinv ppOf steps _ (start_cinv ppOf script q) hs).2
+
+/-- non-vacuity of both directions (prefetch 0.5 of a 4-row page: threshold 2): after 2 rows not launched, after 3 launched -/
+example :
+    let q : Qry := { ident := 1, prepared := false, skipMeta := false, pageSize := 0, pageState := [], disableAutoPage := false }
+    let script : List Reply := [.page [1, 2, 3, 4] (some [7]), .page [5] none]
+    let ppOf : Int → Nat → Nat := fun _ n => n / 2
+    (Walk.exec ppOf (Walk.start ppOf script q) [.scan .scan 2]).async = .idle ∧
+    (Walk.exec ppOf (Walk.start ppOf script q) [.scan .scan 2, .observe, .scan .scan 1]).async = .launched ∧
+    (Walk.exec ppOf (Walk.start ppOf script q) [.scan .scanner 4]).async = .idle := by
+  decide
+
+open Paging.Hist Paging.Walk in
+/-- **A stride that ends with `false` has ended the iteration, with everything delivered**: if the last call
+    of a stride returned false, the rows handed over since Iter() are the whole specification result, the
+    error is the specification's, and every request of the full iteration has been sent (no more, no fewer). -/
+theorem C15_walk_false_is_complete (ppOf : Int → Nat → Nat) (script : List Reply) (q : Qry) (steps : List Walk.Step)
+    (api : Walk.Api) (hq : q.disableAutoPage = false)
+    (hf : (scan1 ppOf api (Walk.exec ppOf (Walk.start ppOf script q) steps)).2 = false) :
+    let w := (scan1 ppOf api (Walk.exec ppOf (Walk.start ppOf script q) steps)).1
+    w.it.out = Spec.rows script ∧ w.it.cur.err = Spec.err script ∧
+    w.it.reqs.filter Req.isExec = (run (ppOf q.pf) script false q).reqs.filter Req.isExec := by
+  intro w
+  have hfin : finished w.it := scanF_fuel ppOf _ _ hf
+  have ht := C15_walk_total ppOf script q (steps ++ [Walk.Step.scan api 1])
+  have hexec : ∀ (l : List Walk.Step) (w0 : W) (s : Walk.Step), Walk.exec ppOf w0 (l ++ [s]) = Walk.step ppOf (Walk.exec ppOf w0 l) s := by
+    intro l
+    induction l with
+    | nil => intro w0 s; rfl
+    | cons a l ih => intro w0 s; exact ih _ s
+  rw [hexec] at ht
+  have hstep : Walk.step ppOf (Walk.exec ppOf (Walk.start ppOf script q) steps) (Walk.Step.scan api 1) = w := by
+    show (scanK ppOf api 1 _).1 = w
+    unfold scanK
+    simp only [scanK]
+    split <;> rfl
+  rw [hstep, tot_finished ppOf w.it hfin] at ht
+  have hs := C15_session_rows (ppOf q.pf) script false q hq
+  simp only [obs3, Prod.mk.injEq] at ht
+  exact ⟨ht.1.trans hs.1, ht.2.2.trans hs.2, ht.2.1⟩
+
+open Paging.Hist Paging.Walk in
+/-- **Every stride hands over exactly the next rows of the result.** For every script, query, prefetch
+    position and every walk (strides of any lengths through either API, with observers, probes and the prefetch
+    running at any moment in between): the rows each stride hands over and the result of its last call are
+    what the SPECIFICATION says for an application that takes the result `Spec.rows script` in pieces of those
+    lengths — the next `k` rows (fewer only where the result ends), `true` iff there were `k`. Nothing is
+    skipped or repeated at a page boundary, whether the next page was prefetched, is being fetched, or is
+    fetched by the switch; an empty page never ends a stride early. This is what makes op `walk` spec-backed. -/
+theorem C15_walk_rows_spec (ppOf : Int → Nat → Nat) (script : List Reply) (q : Qry) (steps : List Walk.Step)
+    (hq : q.disableAutoPage = false) :
+    strideLog ppOf (Walk.start ppOf script q) steps = Walk.Spec.strides (Spec.rows script) 0 (strideKs steps) := by
+  have hj : J ppOf (Spec.rows script) (Walk.start ppOf script q) :=
+    ⟨start_winv ppOf script q, by
+      rw [start_target]; exact (C15_session_rows (ppOf q.pf) script false q hq).1⟩
+  exact strideLog_spec ppOf (Spec.rows script) steps _ hj
+
+/-- non-vacuity: pages [1,2] / [] / [3] / last []: strides 1, 0, 3 (crossing the empty page and reaching the
+    empty last page: false), 1 -/
+example :
+    let q : Qry := { ident := 1, prepared := false, skipMeta := false, pageSize := 0, pageState := [], disableAutoPage := false }
+    let script : List Reply := [.page [1, 2] (some [7]), .page [] (some [8]), .page [3] (some [9]), .page [] none]
+    Walk.strideLog (fun _ n => n / 2) (Walk.start (fun _ n => n / 2) script q)
+      [.scan .scan 1, .observe, .scan .scanner 0, .await, .scan .scan 3, .scan .scan 1] =
+      [([1], true), ([], true), ([2, 3], false), ([], false)] := by
+  decide
+
+open Paging.Walk in
+/-- **WillSwitchPage() = false at the end of a page means the iteration is over**: no row left on the current
+    page and no next page — the next call returns false and sends nothing (`finished`); and WillSwitchPage() =
+    true means exactly that the current page is used up and carries has_more_pages (auto paging on). -/
+theorem C15_willswitch (w : W) (hrow : w.it.cur.rows.length ≤ w.it.cur.pos) :
+    (willSwitch w = false → Hist.finished w.it) ∧ (willSwitch w = true ↔ w.it.cur.next.isSome) := by
+  unfold willSwitch Hist.finished
+  have hr : w.it.cur.rows[w.it.cur.pos]? = none := List.getElem?_eq_none_iff.2 hrow
+  constructor
+  · intro h
+    right
+    refine ⟨hr, ?_⟩
+    cases hn : w.it.cur.next with
+    | none => rfl
+    | some n => simp [hn, hrow] at h
+  · simp [hrow]
+
+/-- non-vacuity (prefetch 0.25 of a 4-row page: threshold 3): after 3 rows nothing has been asked for ahead,
+    the 4th Scan launches the prefetch, it runs, and the node has then received exactly the two first requests;
+    WillSwitchPage is true, NumRows is 4, PageState is the state of page 1; draining from there gives the rest -/
+example :
+    let q : Qry := { ident := 1, prepared := false, skipMeta := false, pageSize := 0, pageState := [], disableAutoPage := false }
+    let script : List Reply := [.page [1, 2, 3, 4] (some [7]), .page [5] (some [8]), .page [6] none]
+    let ppOf : Int → Nat → Nat := fun _ n => 3 * n / 4
+    let w3 := Walk.exec ppOf (Walk.start ppOf script q) [.scan .scan 3, .arrive]
+    let w4 := Walk.exec ppOf (Walk.start ppOf script q) [.scan .scan 3, .arrive, .scan .scan 1, .arrive]
+    let w9 := Walk.exec ppOf (Walk.start ppOf script q) [.scan .scan 3, .arrive, .scan .scan 1, .arrive, .scan .scan 9]
+    w3.async = .idle ∧ w3.it.pre.isSome = false ∧ w3.it.reqs.length = 1 ∧
+    w4.async = .launched ∧ w4.it.pre.isSome = true ∧ w4.it.reqs.length = 2 ∧ w4.it.out = [1, 2, 3, 4] ∧
+    Walk.willSwitch w4 = true ∧ Walk.numRows w4 = 4 ∧ Walk.pageState w4 = [7] ∧
+    w9.it.out = [1, 2, 3, 4, 5, 6] ∧ w9.it.reqs.length = 3 ∧
+    (Walk.scan1 ppOf .scan w9).2 = false := by
+  decide
+
+
+/-! ## The single-row helpers Query.Scan / Query.MapScan / Query.Exec on a paged statement (`Model/PagingFirst.lean`)
+
+Full property:  ∀ script q,  Query.Scan / MapScan hand over the FIRST ROW OF THE RESULT (`Spec.rows script`) with
+a nil error, and report ErrNotFound only if the result has no row at all (a failure that ends an empty
+result is reported as that failure) — `((queryScan pp script q).row, (queryScan pp script q).err) =
+First.Spec.first script`.  This does NOT hold on the unchanged code: Iter.checkErrAndNotFound looks at the row
+count of the FIRST PAGE only (`iter.numRows == 0`), so an EMPTY first page that says has_more_pages (Cassandra
+sends such pages, e.g. under ALLOW FILTERING or over tombstones) makes Query.Scan answer ErrNotFound although
+rows follow on the next page. Hence `C15_query_scan_partial` with the hypothesis `FirstPageDecides`, and the
+counterexample `C15_cex_first_empty_page` (proposed finding KF-C15-4, fix props/C15.fix-4.diff). -/
+
+open Paging.First in
+/-- **Query.Scan / Query.MapScan = first row of the result** (partial: the first page is not an empty page with
+    has_more_pages): for every script (UNPREPARED answers first, a failure, any pages), every query: the row
+    handed over is the head of the specification's rows and the error is nil; no row in the whole result:
+    the failure that ended it, else ErrNotFound. -/
+theorem C15_query_scan_partial (pp : Nat → Nat) (script : List Reply) (q : Qry) (hd : FirstPageDecides script) :
+    ((queryScan pp script q).row, (queryScan pp script q).err) = First.Spec.first script := by
+  have h := queryScan_spec pp script false q hd
+  unfold queryScan
+  cases he : (Hist.connExec pp script false q).iter.err with
+  | some e => simp only [he] at h ⊢; exact h
+  | none =>
+    simp only [he] at h ⊢
+    cases hr : (Hist.connExec pp script false q).iter.rows with
+    | nil => simp only [hr] at h ⊢; exact h
+    | cons a as => simp only [hr] at h ⊢; exact h
+
+open Paging.First in
+/-- counterexample to the unrestricted statement (KF-C15-4): page 1 is empty with has_more_pages, page 2 holds
+    row 5: Query.Scan reports ErrNotFound and hands over nothing, the first row of the result is 5 -/
+theorem C15_cex_first_empty_page :
+    let q : Qry := { ident := 1, prepared := false, skipMeta := false, pageSize := 0, pageState := [], disableAutoPage := false }
+    let script : List Reply := [.page [] (some [1]), .page [5] none]
+    (queryScan (fun _ => 0) script q).row = none ∧ (queryScan (fun _ => 0) script q).err = some .notFound ∧
+    First.Spec.first script = (some 5, none) ∧ ¬ FirstPageDecides script := by
+  intro q script
+  exact ⟨by decide, by decide, by decide, by simp [script, FirstPageDecides]⟩
+
+open Paging.First in
+/-- **Query.Exec reports the outcome of the first fetch** (after any UNPREPARED round trips), for every script -/
+theorem C15_exec_first_fetch (pp : Nat → Nat) (script : List Reply) (q : Qry) :
+    (queryExec pp script q).err = (First.Spec.execErr script).map .fail ∧ (queryExec pp script q).row = none := by
+  refine ⟨?_, rfl⟩
+  unfold queryExec
+  simp only []
+  rw [queryExec_spec pp script false q]
+
+/-- non-vacuity: UNPREPARED first, then a page with rows 7,8 and has_more_pages: row 7, no error, and the
+    requests are PREPARE, EXECUTE, PREPARE, EXECUTE — nothing is asked for page 2 -/
+example :
+    let q : Qry := { ident := 1, prepared := true, skipMeta := true, pageSize := 10, pageState := [], disableAutoPage := false }
+    let script : List Reply := [.unprepared, .page [7, 8] (some [1]), .page [9] none]
+    First.FirstPageDecides script ∧
+    First.queryScan (fun n => n / 2) script q =
+      ⟨some 7, none, [.prepare, .exec 1 true true none (some 10), .prepare, .exec 1 true true none (some 10)]⟩ := by
+  intro q script
+  exact ⟨by simp [script, First.FirstPageDecides], by decide⟩
+
+
+/-! ## Cancellation at ANY moment (`Proofs/C15Cancel.lean`): with a prefetch pending, running or done, before an
+    Iter(), between pages — the invariant `Hist.K` survives every step of every history -/
+
+open Paging.Hist in
+/-- **Cancelling a context never truncates a result silently, whenever it happens.** For EVERY history on one
+    Query object — the steps of `C15_iter_independent_of_rebind` AND cancellations of caller contexts at any
+    moment, in any order with prefetch completions, Scans and further Iter() calls — every iterator with automatic
+    paging has, at every moment, handed over an initial segment of its snapshot's result (in order, each row
+    once: a cancellation loses no row of a page already fetched and duplicates none), and an iterator that has
+    ended WITHOUT an error has handed over the whole result and sent every request of the full iteration. So a
+    cancelled fetch always surfaces as the iteration's error, never as an early normal end. -/
+theorem C15_history_cancel_no_truncation (srv : Nat → Bytes → List Reply) (ppOf : Int → Nat → Nat)
+    (w0 : World) (h : List Step) (h0 : w0.its = []) :
+    ∀ it ∈ (exec srv ppOf w0 h).its, it.snap.disableAutoPage = false →
+      it.out <+: Spec.rows it.script ∧
+      (finished it → it.cur.err = none →
+        it.out = Spec.rows it.script ∧ Spec.err it.script = none ∧
+        it.reqs.filter Req.isExec = (run (ppOf it.snap.pf) it.script false it.snap).reqs.filter Req.isExec) := by
+  intro it hit hq
+  have hkw : KW ppOf w0 := by intro y hy; rw [h0] at hy; cases hy
+  have hk := exec_KW srv ppOf h w0 hkw it hit
+  have hr := K_rows ppOf _ it hk
+  have hs := C15_session_rows (ppOf it.snap.pf) it.script false it.snap hq
+  have ht : (target ppOf it).1 = Spec.rows it.script := hs.1
+  refine ⟨by rw [← ht]; exact hr.1, ?_⟩
+  intro hfin he
+  have h2 := hr.2 hfin he
+  refine ⟨by rw [← ht]; exact h2.1, ?_, h2.2⟩
+  -- ended without error and on the whole result: the specification has no error either
+  rcases hk with hon | ⟨⟨f, hf⟩, _⟩ | ⟨_, hnx, _, _⟩
+  · rw [tot_finished ppOf it hfin] at hon
+    have : it.cur.err = (target ppOf it).2.2 := by rw [← hon]
+    rw [← hs.2]
+    exact this.symm.trans he
+  · rw [he] at hf; cases hf
+  · unfold finished at hfin
+    rcases hfin with h | ⟨_, h⟩
+    · rw [he] at h; cases h
+    · rw [h] at hnx; cases hnx
+
+open Paging.Hist Paging.Walk in
+/-- the same for a walk of one iterator with the query's context cancelled anywhere in between (the walk tier's
+    `x` steps: after the prefetch was awaited, or with none started) -/
+theorem C15_walk_cancel_no_truncation (ppOf : Int → Nat → Nat) (script : List Reply) (q : Qry) (steps : List Walk.StepX)
+    (hq : q.disableAutoPage = false) :
+    let w := Walk.execX ppOf (Walk.start ppOf script q) steps
+    w.it.out <+: Spec.rows script ∧ (finished w.it → w.it.cur.err = none → w.it.out = Spec.rows script) := by
+  intro w
+  have hk := execX_WK ppOf _ steps _ (start_WK ppOf script q)
+  have hr := K_rows ppOf _ w.it hk
+  have hs := (C15_session_rows (ppOf q.pf) script false q hq).1
+  simp only [obs3] at hr
+  rw [hs] at hr
+  exact ⟨hr.1, fun hf he => (hr.2 hf he).1⟩
+
+/-- non-vacuity: three pages; two rows of page 1 taken, its prefetch completes (page 2 is in hand), THEN the
+    context is cancelled: the drain hands over the rest of page 1 and all of page 2 and ends with `context
+    canceled` — rows 1..5 of 1..6, a prefix, not a normal end; two requests were sent, none for page 3 -/
+example :
+    let q : Qry := { ident := 1, prepared := false, skipMeta := false, pageSize := 0, pageState := [], disableAutoPage := false, ctx := some 1 }
+    let script : List Reply := [.page [1, 2, 3] (some [7]), .page [4, 5] (some [8]), .page [6] none]
+    let ppOf : Int → Nat → Nat := fun _ n => n / 2
+    let w := Walk.execX ppOf (Walk.start ppOf script q)
+      [.base (.scan .scan 2), .base .arrive, .cancel 1, .base (.scan .scan 9)]
+    w.it.out = [1, 2, 3, 4, 5] ∧ w.it.cur.err = some .ctx ∧ w.it.reqs.length = 2 := by
+  decide
+
+
+/-! ## A failing PREPARE at a page fetch (`Model/PagingPrep.lean`): the first fetch of an uncached statement, or
+    any page after an UNPREPARED answer -/
+
+open Paging.Prep in
+/-- **A failed PREPARE surfaces like a failed fetch, and nothing is sent after it.** For every script over
+    fetch attempts in which the PREPARE of any attempt may fail (`prepFail`), every query with automatic paging:
+    rows and final error are the specification's for the script read with "failed PREPARE = failed fetch" —
+    the rows of the pages before, then THAT error, never a normal end; and (no present-but-empty state) the
+    requests are exactly `Prep.Spec.reqs`: as without the failure up to and including the PREPARE that failed,
+    and then neither the EXECUTE of that attempt nor any later request. -/
+theorem C15_prepare_failure_surfaces (pp : Nat → Nat) (script : List PReply) (cached : Bool) (q : Qry)
+    (hq : q.disableAutoPage = false) :
+    (runP pp script cached q).rows = Spec.rows (script.map toBase) ∧
+    (runP pp script cached q).err = Spec.err (script.map toBase) ∧
+    (NoEmptyStateP script →
+      (runP pp script cached q).reqs = Prep.Spec.reqs (template q) q.prepared script (!cached) (firstState q)) :=
+  ⟨(runP_rows_err pp script cached q hq).1, (runP_rows_err pp script cached q hq).2,
+   fun hne => runP_reqs pp script cached q hq hne⟩
+
+open Paging.Prep in
+/-- without a failing PREPARE this model IS the base model (every theorem about `run` speaks about it) -/
+theorem C15_prepare_none_is_base (pp : Nat → Nat) (script : List Reply) (cached : Bool) (q : Qry) :
+    runP pp (script.map PReply.base) cached q = run pp script cached q :=
+  runP_base pp script cached q
+
+/-- non-vacuity: page 1 (rows 1,2), the fetch of page 2 is answered UNPREPARED, the re-PREPARE fails with
+    0x2000: rows 1,2 and THAT error; sent: PREPARE, EXECUTE, EXECUTE(state 07), PREPARE — and no third EXECUTE -/
+example :
+    let q : Qry := { ident := 1, prepared := true, skipMeta := false, pageSize := 0, pageState := [], disableAutoPage := false }
+    let script : List Prep.PReply := [.base (.page [1, 2] (some [7])), .base .unprepared, .prepFail (.srv 0x2000), .base (.page [3] none)]
+    Prep.valid true script true = true ∧
+    Prep.runP (fun _ => 0) script false q =
+      ⟨[1, 2], [.prepare, .exec 1 true false none none, .exec 1 true false (some [7]) none, .prepare], some (.srv 0x2000)⟩ := by
   decide
 
 
